@@ -81,6 +81,10 @@ def work(tasks, idx):
             kw["tpm_san_extra_dnsname_first"] = variant % 5 == 2     # an extra dNSName before the directoryName is still conformant
         if fmt in attest.CHAIN_FORMATS and fmt != "fido-u2f":
             kw["n_intermediates"] = variant % 3
+        if fmt in attest.CHAIN_FORMATS and fmt != "android-key" and variant % 5 in (1, 3):
+            # after a CA key roll-over the RP's anchor list holds two root certificates with one name (told apart by their key
+            # identifiers); the response chains to one of them
+            kw["stale_same_name_anchor"] = "first" if variant % 5 == 1 else "last"
         # the same maps written differently: member order of the attestation object and of the COSE_Key, additional members
         kw["attobj_order"] = [None, "reversed", "rotated"][variant % 3]
         if variant % 4 == 1:
